@@ -157,6 +157,19 @@ CLAIMED = {
             'Sampling, not proof, over the 9.5e12 milliseconds of the range. Trusted: integer splitting of epoch milliseconds '
             'into <<day, ms>> and exact float ranks in vh/drivers/c15.py.',
             '5/C15'),
+    'C04': ('TLA+ object model of catalog filtering (Filter.tla: statements as boolean masks, in-place vs new object) model-'
+            'checked by TLC; every 2-call history on fixed rich catalogs replayed on real catalogs; random histories validated '
+            'by TLC on exact comparison classes (TraceFilter)',
+            'TLC checks ExactSelection (current catalog = source events satisfying every statement issued so far, in order, '
+            'unchanged: implies order / grouping independence and idempotence), OrderPreserved and NonMutating over all '
+            'catalogs of <=1 (quick) / <=2 (thorough) events on a below/equal/above domain x all histories of two calls (10 '
+            'statements, statement pairs, spatial filter, both in_place modes). The 44 652 two-call histories on three fixed '
+            'catalogs are replayed on CSEPCatalog objects for rotating attribute pairs (all 20 ordered pairs of the five '
+            'attributes), value triples with ties / negative depths / pre-1970 and fractional-millisecond times and the '
+            'datetime form; ids and every field of every object must match. Random catalogs of up to 200 events with random '
+            '1..5-call histories (incl. stored filters, tuple lists) are projected to comparison classes and replayed by TLC.',
+            'Trusted: the realisation of abstract values in vh/drivers/c04.py and exact Python comparisons for the classes.',
+            '5/C04'),
 }
 
 NOT_YET = 'check not built yet in this round (specification planned in DESIGN.md section 5); not claimed until it exists'
